@@ -82,6 +82,7 @@ class SEval:
         self.prog = prog
         self._enum_cache: dict[str, dict[str, EnumMember]] = {}
         self._busy: set = set()
+        self._scope: list[str] = []   # class bodies being evaluated (their names are in scope)
 
     # ------------------------------------------------------------------ enum
     def is_enum(self, ci: ClassInfo) -> bool:
@@ -106,7 +107,11 @@ class SEval:
         owner, expr = self.prog.resolve_attr(ci, attr)
         if expr is None:
             return default
-        return self.ev(expr, owner.module, {}, self_cls=cname)
+        self._scope.append(owner.name)
+        try:
+            return self.ev(expr, owner.module, {}, self_cls=cname)
+        finally:
+            self._scope.pop()
 
     # ------------------------------------------------------------------- eval
     def ev(self, e, module: str, env: dict, self_cls: str | None = None):
@@ -266,6 +271,15 @@ class SEval:
     def name(self, ident: str, module: str, env: dict):
         if ident in env:
             return env[ident]
+        if self._scope:
+            ci = self.prog.classes.get(self._scope[-1])
+            k = ('cls', self._scope[-1], ident)
+            if ci is not None and ident in ci.attrs and k not in self._busy:
+                self._busy.add(k)
+                try:
+                    return self.ev(ci.attrs[ident], ci.module, {})
+                finally:
+                    self._busy.discard(k)
         mi = self.prog.modules.get(module)
         if mi is not None:
             if ident in mi.classes:
